@@ -202,19 +202,141 @@ func ruleC02f(c *Ctx) []*report.Result {
 	keyOf := func(root ssa.Value, sub string) string { return root.Name() + "|" + sub }
 	// an object made in the function itself (a nested printer from the pool, a
 	// local) is not part of the caller's frame
-	var local func(root ssa.Value) bool
-	local = func(root ssa.Value) bool {
-		switch x := root.(type) {
-		case *ssa.Alloc:
-			return true
+	// fresh: the value is a printer taken from the pool in this activation and
+	// not yet used by anyone else — the result of newPrinter, of a module
+	// function that returns only such values, a parameter that every caller
+	// binds to such a value, or the parameter of a function literal that is
+	// only ever called (by the function it is handed to) with such a value.
+	allFns := c.P.ModuleFunctions()
+	var fresh func(v ssa.Value, depth int) bool
+	fresh = func(v ssa.Value, depth int) bool {
+		if depth > 5 {
+			return false
+		}
+		switch x := v.(type) {
 		case *ssa.Call:
 			g := x.Common().StaticCallee()
-			if g != nil && (g.Name() == "newPrinter" || !c.P.InModule(g)) {
-				return true // from the pool
-			}
-			if g == nil && x.Common().IsInvoke() {
+			if g == nil {
 				return false
 			}
+			if g.Name() == "newPrinter" && pkgPathOf(g) == pkgRfmt {
+				return true
+			}
+			if !c.P.InModule(g) || g.Blocks == nil {
+				return false
+			}
+			n := 0
+			for _, b := range g.Blocks {
+				if ret, ok := b.Instrs[len(b.Instrs)-1].(*ssa.Return); ok {
+					if len(ret.Results) != 1 || !fresh(ret.Results[0], depth+1) {
+						return false
+					}
+					n++
+				}
+			}
+			return n > 0
+		case *ssa.Phi:
+			for _, e := range x.Edges {
+				if !fresh(e, depth+1) {
+					return false
+				}
+			}
+			return true
+		case *ssa.TypeAssert:
+			return fresh(x.X, depth+1)
+		case *ssa.ChangeType:
+			return fresh(x.X, depth+1)
+		case *ssa.Parameter:
+			fn := x.Parent()
+			k := -1
+			for i, p := range fn.Params {
+				if p == x {
+					k = i
+				}
+			}
+			if k < 0 {
+				return false
+			}
+			sites := 0
+			for _, caller := range allFns {
+				for _, b := range caller.Blocks {
+					for _, ins := range b.Instrs {
+						// direct calls of fn
+						if ci, ok := ins.(ssa.CallInstruction); ok && ci.Common().StaticCallee() == fn && ci.Common().Value == ssa.Value(fn) || ok && fn.Signature.Recv() != nil && ci.Common().StaticCallee() == fn {
+							if _, isCall := ins.(*ssa.Call); !isCall || k >= len(ci.Common().Args) || !fresh(ci.Common().Args[k], depth+1) {
+								return false
+							}
+							sites++
+							continue
+						}
+						// fn as a value: a function literal handed to a module function that only calls it
+						for ai, op := range ins.Operands(nil) {
+							_ = ai
+							var fv ssa.Value
+							switch y := (*op).(type) {
+							case *ssa.Function:
+								if y == fn {
+									fv = y
+								}
+							case *ssa.MakeClosure:
+								if y.Fn == ssa.Value(fn) {
+									fv = y
+								}
+							}
+							if fv == nil {
+								continue
+							}
+							if _, isMC := ins.(*ssa.MakeClosure); isMC {
+								continue // the closure's own construction; its uses are visited as MakeClosure operands
+							}
+							ci, ok := ins.(*ssa.Call)
+							if !ok {
+								return false
+							}
+							g := ci.Common().StaticCallee()
+							if g == nil || !c.P.InModule(g) || g.Blocks == nil {
+								return false
+							}
+							pi := -1
+							for i, a := range ci.Common().Args {
+								if a == fv {
+									pi = i
+								}
+							}
+							if pi < 0 || pi >= len(g.Params) || g.Params[pi].Referrers() == nil {
+								return false
+							}
+							for _, rf := range *g.Params[pi].Referrers() {
+								switch u := rf.(type) {
+								case *ssa.DebugRef:
+								case *ssa.Call:
+									if u.Common().Value != ssa.Value(g.Params[pi]) || k >= len(u.Common().Args) || !fresh(u.Common().Args[k], depth+1) {
+										return false
+									}
+									sites++
+								default:
+									return false
+								}
+							}
+						}
+					}
+				}
+			}
+			return sites > 0
+		}
+		return false
+	}
+	var local func(root ssa.Value) bool
+	local = func(root ssa.Value) bool {
+		if _, ok := root.(*ssa.Alloc); ok {
+			return true
+		}
+		if call, ok := root.(*ssa.Call); ok {
+			if g := call.Common().StaticCallee(); g != nil && !c.P.InModule(g) {
+				return true // from the pool
+			}
+		}
+		switch x := root.(type) {
 		case *ssa.TypeAssert:
 			return local(x.X)
 		case *ssa.ChangeType:
@@ -222,7 +344,7 @@ func ruleC02f(c *Ctx) []*report.Result {
 		case *ssa.Extract:
 			return local(x.Tuple)
 		}
-		return false
+		return fresh(root, 0)
 	}
 	subOf := func(key string) (string, string) {
 		i := strings.Index(key, "|")
@@ -291,14 +413,9 @@ func ruleC02f(c *Ctx) []*report.Result {
 					continue
 				}
 				recv := ci.Common().Args[0]
-				fresh := false
-				if call, ok := recv.(*ssa.Call); ok {
-					if g := call.Common().StaticCallee(); g != nil && g.Name() == "newPrinter" {
-						fresh = true
-					}
-				}
+				isFresh := fresh(rootOfRecv(recv), 0)
 				construct := shortFn(fn.String()) + " / doPrintf on a fresh printer"
-				if fresh {
+				if isFresh {
 					r.Ok(construct)
 				} else {
 					r.Fail(construct, c.P.Pos(ins.Pos()), "the directive parser is entered on a printer that does not come straight from newPrinter: it overwrites the flags of a rendering in progress", nil, "")
